@@ -37,6 +37,10 @@ func init() {
 		Level:       "held on every executed case: complete enumeration of all slices up to length 7 (thorough 9) over {0,1,2} x chunk sizes 1..8 x drop counts -9..9 x six predicates x three group keys, all square matrices up to 3x3 over 2 values, a bounded family of nestings up to depth 3, all strings of <=4 runes over a 5-rune alphabet, plus seeded random larger inputs; checked against reference implementations, identities and callback logs",
 		Technique:   "differential monitor against reference implementations + round-trip identities + logging callbacks",
 		Assumptions: []string{"the references are trusted", "Chunk with size <= 0 and Zip/Unzip on non-square input panic by documentation and are not judged", "Shuffle is only required to return a permutation"}})
+	reg(&propCfg{ID: "C13", Pkg: "./props/c13", Variants: simple(false),
+		Level:       "held on every executed case: complete enumeration of all slices up to length 5 (thorough 6) over 3 values x probes/predicates/key functions/index windows, ALL int8 triples for Clamp/InRange and all int8 for Abs, all 1-/2-/3-argument Range forms in [-10,10] (thorough [-14,14]) plus quarter-step floats, all map slices up to length 5 for the ByKey variants, plus seeded random inputs; checked against the definitions",
+		Technique:   "definitional checkers (differential against direct definitions) over complete small-scope enumeration + seeded random inputs; hangs/blow-ups by watchdog + isolated re-execution",
+		Assumptions: []string{"the definitions as coded in the checker are trusted", "not asserted: Mean of an empty slice, Clamp with min > max, unsigned/overflowing Range arguments, Range() with no argument", "FindMin/MaxByKey when some map lacks the key: an error or the extremum over the maps that have it"}})
 	reg(&propCfg{ID: "C04", Pkg: "./props/c04", Variants: simple(false),
 		Technique:   "reference-model trace monitor (map model) over systematic small-scope sweep + seeded random sequences",
 		Assumptions: []string{"the map model and the generators are trusted", "single goroutine; concurrency is C01/C02"}})
